@@ -26,6 +26,10 @@ pub enum E {
     FOld(u8),
     /// response addressed to another requester
     ROther,
+    /// response / follow-up of responder (0=A, 1=B) with the sequence id of the latest request but
+    /// addressed to another port of the own clock (a sibling port's exchange on a shared segment)
+    RSibling(u8),
+    FSibling(u8),
     /// master-role stimuli (must stay silent while faulty)
     AnnounceTimer,
     SyncTimer,
@@ -184,6 +188,21 @@ pub fn run_case(rep: &mut Report, case: &Case, verbose: bool) {
                 let someone = Pid { clock: [3; 8], port: 9 };
                 let m = resp_src[1].pdelay_resp(r.seq, true, units_to_ts(clock_now / 3), someone, 5);
                 Some(Call::EventRx(m.encode(), time_from_units(clock_now)))
+            }
+            E::RSibling(x) | E::FSibling(x) => {
+                let x = (x % 2) as usize;
+                let Some(r) = rxs.last() else { continue };
+                let sibling = Pid { clock: own.clock, port: own.port.wrapping_add(1 + (step as u16 % 3)) };
+                // the sibling's exchange has its own timestamps
+                let t = units_to_ts(clock_now / 2 + rng.gen_range(0..(1u128 << 40)));
+                rep.ev("pdelay_message_addressed_to_sibling_port");
+                if matches!(ev, E::RSibling(_)) {
+                    let m = resp_src[x].pdelay_resp(r.seq, case.two_step[x], t, sibling, rand_corr(&mut rng));
+                    Some(Call::EventRx(m.encode(), time_from_units(clock_now + rng.gen_range(0..(1u128 << 34)))))
+                } else {
+                    let m = resp_src[x].pdelay_resp_fu(r.seq, t, sibling, rand_corr(&mut rng));
+                    Some(Call::GeneralRx(m.encode()))
+                }
             }
             E::XSync => {
                 if pending_sync.is_empty() {
@@ -393,7 +412,7 @@ fn alphabet() -> Vec<E> {
 
 pub fn run(rep: &mut Report, tier: &str, seed: u64, shard: (u32, u32), replay: Option<&str>) {
     rep.rule = "event scripts on a P2P port in each start state (Listening/Master/Slave/Passive, later Faulty): every sequence up to a length bound over {tx timestamp, Resp_A, FU_A, Resp_B, FU_B} after each of two consecutive requests is enumerated (one-/two-step per responder), plus seeded scripts with old-request responses, other-requester responses and master-role stimuli; unique timestamps per (request, responder); distinct = distinct (script, parameters); non-trivial = a peer-delay measurement or a Faulty transition occurred".into();
-    rep.require(&["peer_delay_measurement", "entered_faulty", "left_faulty", "recovered_single_responder", "call_while_faulty", "two_responders_current_request", "start_Listening", "start_Master", "start_Slave", "start_Passive"]);
+    rep.require(&["peer_delay_measurement", "entered_faulty", "left_faulty", "recovered_single_responder", "call_while_faulty", "two_responders_current_request", "start_Listening", "start_Master", "start_Slave", "start_Passive", "pdelay_message_addressed_to_sibling_port"]);
     if let Some(path) = replay {
         let v: serde_json::Value = serde_json::from_str(&std::fs::read_to_string(path).unwrap()).unwrap();
         if let Ok(c) = serde_json::from_value::<Case>(v["case"].clone()) {
@@ -468,8 +487,28 @@ pub fn run(rep: &mut Report, tier: &str, seed: u64, shard: (u32, u32), replay: O
             enumerated += 1;
         }
     }
+    // a sibling port of the own clock runs its exchange with the same sequence id on the segment
+    if shard.0 == 0 {
+        let variants: [&[E]; 8] = [
+            &[E::T, E::X, E::R(0), E::FSibling(0), E::F(0)],
+            &[E::T, E::X, E::FSibling(0), E::R(0), E::F(0)],
+            &[E::T, E::R(0), E::FSibling(0), E::X, E::F(0)],
+            &[E::T, E::X, E::RSibling(0), E::R(0), E::F(0)],
+            &[E::T, E::X, E::R(0), E::RSibling(0), E::FSibling(0), E::F(0)],
+            &[E::T, E::X, E::RSibling(1), E::FSibling(1), E::R(0), E::F(0)],
+            &[E::T, E::X, E::R(0), E::F(0), E::FSibling(0), E::T, E::X, E::R(0), E::FSibling(1), E::F(0)],
+            &[E::T, E::X, E::R(0), E::RSibling(1), E::F(0)],
+        ];
+        for (vi, v) in variants.iter().enumerate() {
+            for k in 0..16u64 {
+                let case = Case { seed: seed.wrapping_add(9000 + 16 * vi as u64 + k), script: v.to_vec(), two_step: [k & 1 == 0, k & 2 == 0], start_state: (k / 4 % 4) as u8, base_kind: (k % 4) as u8, kalman: false, slave_only: false };
+                count(rep, &case);
+                enumerated += 1;
+            }
+        }
+    }
     rep.extra.insert("enumerated_scripts".into(), json!(enumerated));
-    let full = [E::T, E::X, E::R(0), E::F(0), E::R(1), E::F(1), E::ROld(0), E::FOld(1), E::ROld(1), E::ROther, E::AnnounceTimer, E::SyncTimer, E::SyncTimer, E::XSync, E::DelayReq, E::AnnounceReceipt, E::Bmca, E::T, E::X, E::R(0), E::F(0)];
+    let full = [E::T, E::X, E::R(0), E::F(0), E::R(1), E::F(1), E::ROld(0), E::FOld(1), E::ROld(1), E::ROther, E::RSibling(0), E::FSibling(0), E::FSibling(1), E::AnnounceTimer, E::SyncTimer, E::SyncTimer, E::XSync, E::DelayReq, E::AnnounceReceipt, E::Bmca, E::T, E::X, E::R(0), E::F(0)];
     let n: u64 = if tier == "thorough" { 400_000 } else { 60_000 };
     let budget = Budget::new(n, if tier == "thorough" { 600.0 } else { 15.0 });
     let mut i = 0;
